@@ -93,9 +93,17 @@ def main():
             try:
                 ds = rec["want_day_start"]
                 if 1980 <= conv(ds).tm_year <= 2107 and abs(t - ds) > 7200:
-                    f.setinfo("/t.txt", {"details": {"created": ds, "modified": t}})
+                    acc = t + 3 * 86400 if conv(t + 3 * 86400).tm_year <= 2107 else t - 3 * 86400     # the access DATE on another day than the creation date
+                    f.setinfo("/t.txt", {"details": {"created": ds, "modified": t, "accessed": acc}})
                     d2 = f.getinfo("/t.txt", namespaces=["details"]).raw["details"]
                     rec["mid_created"], rec["mid_want"], rec["mid_fields"] = d2["created"], ds, civil(conv(ds))
+                    # ... and what the DEVICE holds in the three date fields (C17-m10: creation and access date transposed when the entry is serialised)
+                    if len(out["results"]) % 8 == 0:
+                        tt3 = fatspec.Volume(dev.volume()).tree("ibm437")[0].get("/t.txt")
+                        if tt3 is not None:
+                            tm3 = tt3[3:]
+                            rec["dev_dates"] = [dec_date(tm3[0][0]), dec_date(tm3[1][0]), dec_date(tm3[2])]
+                            rec["dev_want"] = [civil(conv(ds))[:3], civil(conv(t))[:3], civil(conv(acc))[:3]]
             except Exception as e3:  # noqa
                 rec["mid_error"] = f"{type(e3).__name__}: {e3}"
             out["results"].append(rec)
